@@ -33,6 +33,16 @@ var catalogue = []srDef{
 	{"+proj=aea +lat_1=29.5 +lat_2=45.5 +lat_0=23 +lon_0=-96 +x_0=0 +y_0=0 +ellps=GRS80 +datum=NAD83 +units=m", -96, 35, "wgs"},
 	{"+proj=tmerc +lat_0=0 +lon_0=9 +k=0.9996 +x_0=500000 +y_0=0 +datum=WGS84 +units=ft", 9, 48, "wgs"},
 	{"+proj=eqdc +lat_0=40 +lon_0=-96 +lat_1=20 +lat_2=60 +x_0=0 +y_0=0 +datum=WGS84 +units=m", -96, 40, "wgs"},
+	// authalic-sphere flag +R_A (DeriveConstants shrinks A in place), +rf, +from_greenwich, +to_meter
+	{"+proj=merc +lon_0=0 +k=1 +x_0=0 +y_0=0 +ellps=WGS84 +datum=WGS84 +units=m +R_A", 20, 30, "wgs"},
+	{"+proj=longlat +ellps=WGS84 +datum=WGS84 +R_A", 10, 45, "wgs"},
+	{"+proj=aea +lat_1=29.5 +lat_2=45.5 +lat_0=23 +lon_0=-96 +x_0=0 +y_0=0 +ellps=GRS80 +datum=NAD83 +R_A", -96, 35, "wgs"},
+	{"+proj=lcc +lat_1=33 +lat_2=45 +lat_0=40 +lon_0=-97 +x_0=0 +y_0=0 +ellps=clrk66 +datum=WGS84 +R_A +units=us-ft", -97, 40, "wgs"},
+	{"+proj=merc +a=6378137 +rf=298.257223563 +lon_0=0 +datum=WGS84 +to_meter=0.3048", 20, 30, "wgs"},
+	{"+proj=tmerc +lat_0=0 +lon_0=9 +k=1 +x_0=0 +y_0=0 +ellps=WGS84 +datum=WGS84 +from_greenwich=2.5", 12, 48, "wgs"},
+	{"+proj=utm +zone=33 +ellps=bessel +towgs84=598.1,73.7,418.2,0.202,0.045,-2.455,6.7 +R_A", 15, 50, "d7"},
+	{"+proj=tmerc +lat_0=0 +lon_0=9 +k=1 +x_0=0 +y_0=0 +ellps=intl +R_A +to_meter=0.3048 +pm=paris +towgs84=-87,-98,-121", 12, 45, "d3"},
+	{"+proj=eqdc +lat_0=40 +lon_0=10 +lat_1=30 +lat_2=50 +x_0=0 +y_0=0 +ellps=bessel +R_A", 10, 40, "none"},
 	// 3-parameter datums (hop through WGS84 unless the other side says +datum=WGS84)
 	{"+proj=longlat +datum=potsdam", 10, 51, "d3"},
 	{"+proj=tmerc +lat_0=0 +lon_0=9 +k=1 +x_0=3500000 +y_0=0 +datum=potsdam +units=m", 9, 51, "d3"},
@@ -199,6 +209,8 @@ func (g *histGen) line(kind int) string {
 	}
 	// transformers: all share the SR objects above
 	nT := r.Range(1, 6)
+	var pt0 bool
+	var p0x, p0y float64
 	type pr struct{ s, d int }
 	var pairs []pr
 	for len(pairs) < nT {
@@ -218,6 +230,15 @@ func (g *histGen) line(kind int) string {
 	if r.Chance(0.5) {
 		nC = r.Range(2, 8)
 	}
+	// NewTransform as a history step: some transformers are built BETWEEN calls of the others
+	// (late[k] = index of the call before which transformer k is built; -1 = before the first call)
+	late := make([]int, len(pairs))
+	for k := range late {
+		late[k] = -1
+		if k > 0 && r.Chance(0.45) {
+			late[k] = r.Range(1, nC-1)
+		}
+	}
 	var b strings.Builder
 	fmt.Fprintf(&b, "h %d", len(defs))
 	for _, d := range defs {
@@ -232,14 +253,34 @@ func (g *histGen) line(kind int) string {
 	pt := -1
 	for i := 0; i < nC; i++ {
 		t := r.Intn(len(pairs))
+		if late[t] > i { // not built yet: call the first transformer again (before/after the build)
+			t = 0
+		}
 		var x, y float64
 		if t == pt && r.Chance(0.3) { // same transformer, same input again
 			x, y = px, py
+		} else if t == 0 && pt0 && r.Chance(0.5) { // the first transformer's first input again, later
+			x, y = p0x, p0y
 		} else {
 			x, y = g.input(defs[pairs[t].s], catalogue[idx[pairs[t].s]])
 		}
+		if t == 0 && !pt0 {
+			pt0, p0x, p0y = true, x, y
+		}
 		pt, px, py = t, x, y
 		fmt.Fprintf(&b, " %d %s %s", t, vproto.F2H(x), vproto.F2H(y))
+	}
+	nL := 0
+	for _, l := range late {
+		if l >= 0 {
+			nL++
+		}
+	}
+	fmt.Fprintf(&b, " | %d", nL)
+	for k, l := range late {
+		if l >= 0 {
+			fmt.Fprintf(&b, " %d %d", k, l)
+		}
 	}
 	return b.String()
 }
@@ -274,6 +315,9 @@ func gen(seed uint64, tier string) {
 		"h 3 WGS84 EPSG:3857 " + enc("+proj=longlat +datum=potsdam") +
 			" | 3 0 1 2 1 1 2 | 4 1 " + F(10) + " " + F(51) + " 0 " + F(10) + " " + F(51) + " 2 " + F(1000000) + " " + F(6000000) + " 1 " + F(10) + " " + F(51),
 	}
+	// the forward + inverse pair of a +R_A reference, the inverse built between two calls of the forward
+	fixed = append(fixed, "h 2 WGS84 "+enc("+proj=merc +lon_0=0 +k=1 +x_0=0 +y_0=0 +ellps=WGS84 +R_A +units=m +no_defs")+
+		" | 2 0 1 1 0 | 3 0 "+F(10)+" "+F(45)+" 0 "+F(10)+" "+F(45)+" 1 "+F(1111121)+" "+F(5590912)+" | 1 1 1")
 	for _, l := range fixed {
 		emit(l)
 	}
